@@ -87,6 +87,13 @@ def gen_run(rng, tier, ratio=None):
 
 def run_real(scn):
     core.import_searchkit()
+    # a quarter of the runs with the application's debug logging on (records really formatted)
+    with core.debug_logging(int(core.digest({k: v for k, v in scn.items()
+                                             if not k.startswith('_')}), 16) % 4 == 0):
+        return run_real_(scn)
+
+
+def run_real_(scn):
     from searchkit import task as TK
     tmpdir = tempfile.mkdtemp(prefix='vh-')
     logf = os.path.join(tmpdir, '_exec.log')
